@@ -490,3 +490,12 @@ func NewAliasScanner() *AliasScanner {
 	return s
 }
 func (s *AliasScanner) Naming() string { return "verif.aliasscanner" }
+
+// PlainPP is a component post-processor of the plain kind (no instantiation-aware callbacks) that changes
+// nothing: its presence must not influence what the other processors do.
+type PlainPP struct {
+	processors.DefaultComponentPostProcessor
+	Nm string
+}
+
+func (p *PlainPP) Naming() string { return p.Nm }
